@@ -124,7 +124,8 @@ class UrlProblem(Problem):
             # a private helper of the rule's module: the class of what it returns (component-wise for tuples)
             cs = self.c.cg.site_of.get(e)
             if cs is not None and len(cs.callees) == 1 and cs.kind in ("direct", "method") and cs.callees[0] is not self.f \
-                    and (cs.callees[0].module is self.f.module or cs.callees[0].module.rel.startswith("helpers/")):
+                    and (cs.callees[0].module is self.f.module or cs.callees[0].module.rel.startswith("helpers/")
+                         or self.c.internal_helper(cs.callees[0])):
                 g = cs.callees[0]
                 cache = self.c.__dict__.setdefault("_url_ret", {})
                 if g not in cache:
